@@ -207,7 +207,7 @@ SHAPES_PLANS = {
         "quick": [(c, "n2", []) for c in ALL10] + [("dir_NoLabel", "n3", []), ("und_NoLabel", "n3", [])] +
                  [(c, "n3d3", []) for c in ("dir_int", "und_int", "dmulti", "umulti", "dweighted", "uweighted")] +
                  [("dir_NoLabel", "e2n4", ["--nofiles"]), ("und_NoLabel", "e2n5", ["--nofiles"]), ("dmulti", "e2n3", []), ("umulti", "e2n3", []), ("dweighted", "e2n3", []), ("uweighted", "e2n3", [])] + [(c, "big", []) for c in ("dir_int", "und_string")] + [("und_NoLabel", "huge", []), ("dir_NoLabel", "huge", [])],
-        "thorough": [(c, "huge", []) for c in ("und_NoLabel", "dir_NoLabel", "und_int", "umulti", "uweighted")] + [(c, "big", []) for c in PLAIN6] + [(c, "n2", []) for c in ALL10] + [(c, "n3", []) for c in ALL10] +
+        "thorough": [(c, "huge", []) for c in ("und_NoLabel", "dir_NoLabel", "und_int", "uweighted")] + [(c, "big", []) for c in PLAIN6] + [(c, "n2", []) for c in ALL10] + [(c, "n3", []) for c in ALL10] +
                     [("dir_NoLabel", "e2n4", []), ("und_NoLabel", "e2n5", []), ("dir_int", "e2n4", ["--nofiles"]), ("und_int", "e2n5", ["--nofiles"]),
                      ("dmulti", "e2n4", ["--nofiles"]), ("umulti", "e2n5", ["--nofiles"]), ("dweighted", "e2n4", ["--nofiles"]), ("uweighted", "e2n5", ["--nofiles"])],
     },
